@@ -72,7 +72,7 @@ def valid_pilot(e, rng):
 
 # ---------------------------------------------------------------- networks
 def rand_network(rng, nmax=8, kinds=("EVSE", "DB", "FR"), constraint_free_p=0.2,
-                 tol=None, nmin=1, bind=None):
+                 tol=None, nmin=1, bind=None, inf_p=0.1):
     n = rng.randint(nmin, nmax)
     layout = rng.choice(["zero", "three", "three", "arb"])
     hetero_v = rng.random() < 0.6
@@ -142,6 +142,10 @@ def rand_network(rng, nmax=8, kinds=("EVSE", "DB", "FR"), constraint_free_p=0.2,
                 lim = (rng.uniform(0.15, 0.7) if bind else 3) * sum(
                     abs(c[s["id"]]) * min(evse_max(s["evse"]), 80) for s in stations if s["id"] in c)
                 cons.append({"name": f"c{j}", "coeffs": c, "limit": math.floor(lim) + 1.37})
+    if cons and rng.random() < inf_p:
+        # a monitoring-only constraint with an infinite limit, registered at a random position among the others
+        sub = rng.sample(ids, rng.randint(1, n))
+        cons.insert(rng.randint(0, len(cons)), {"name": "monitor", "coeffs": {i: rng.choice([1, 1, -1, 0.5]) for i in sub}, "limit": math.inf})
     return {"stations": stations, "constraints": cons, "tol": tol}
 
 
@@ -243,6 +247,42 @@ def dense_sessions(rng, net, sid_other_p=0.1):
                              "battery": b2})
     rng.shuffle(sessions)
     return sessions
+
+
+def rand_edits(rng, net, horizon):
+    """Mid-run edits of the constraint set (ChargingNetwork.update_constraint): tighten / loosen a limit, or re-wire a
+    constraint to cover one more station, keeping its name. Applied after period `after`, i.e. in force from after+1."""
+    cons = [c for c in net["constraints"] if c["limit"] != math.inf]
+    if not cons:
+        return []
+    ids = [s["id"] for s in net["stations"]]
+    out = []
+    if len(ids) >= 2 and rng.random() < 0.5:
+        # make one station start out covered by no constraint at all (it may be wired into one later)
+        z = rng.choice(ids)
+        if all(len([k for k in c["coeffs"] if k != z]) >= 1 for c in net["constraints"]):
+            for c in net["constraints"]:
+                c["coeffs"].pop(z, None)
+    uncovered = [i for i in ids if not any(i in c["coeffs"] for c in net["constraints"])]
+    for _ in range(rng.randint(1, 2)):
+        c = rng.choice(cons)
+        co = dict(c["coeffs"])
+        if rng.random() < 0.6:
+            free = [i for i in uncovered if i not in co] or [i for i in ids if i not in co]
+            if free:
+                co[rng.choice(free)] = 1
+        lim = math.floor(c["limit"] * rng.choice([0.4, 0.6, 0.6, 1.5])) + 0.37
+        out.append({"after": rng.randint(0, max(0, horizon - 2)), "name": c["name"], "coeffs": co, "limit": max(lim, 1.37)})
+    return sorted(out, key=lambda e: e["after"])
+
+
+def network_at(net, edits, t):
+    """The network descriptor in force during period t, given the edits."""
+    cons = [dict(c) for c in net["constraints"]]
+    for e in edits or []:
+        if e["after"] < t:
+            cons = [c for c in cons if c["name"] != e["name"]] + [{"name": e["name"], "coeffs": dict(e["coeffs"]), "limit": e["limit"]}]
+    return dict(net, constraints=cons)
 
 
 # --------------------------------------------------------------- schedulers
